@@ -106,3 +106,31 @@ void vf_harness(void) { int n; text_tail(n); VF_CANARY(); }
     functions=['TextFile::text (UTF-8 / no BOM branch)'], trusted=['fread returns 0..n'], assumes=['file size below 2^31-1 bytes (String::resize(n) needs n+1 to fit an int)'],
 )
 UNITS += [utf16le, utf16be, text_tail]
+
+# ---- File::close(): the cached FileInfo (size, dates: filled lazily by size()/lastModified()) must not outlive the open file it was read from,
+# otherwise size()/content()/text() after write...close report the size seen in the middle of writing.
+FC = 'src/File.cpp'
+file_close = Unit(
+    'File_close', 'C17',
+    cuts=[Cut('close', FC, r'^void File::close\(\)\s*$', members=('_file', '_info'),
+              rules=[(r'fclose\(_file\);', 'VF_FCLOSE(_file);', None), (r'_info = FileInfo\(\);', '_info.size = -1;   /* FileInfo(): size -1 = "not read" */', None),
+                     (r'_info\.clear\(\);', '_info.size = -1;', None)])],
+    text=PRE + r'''
+typedef struct FileInfo { long long size; } FileInfo;          /* File.h: operator!() is size == -1 */
+typedef struct File { void* _file; FileInfo _info; } File;
+int g_closed;
+static void VF_FCLOSE(void* f) { __CPROVER_assert(f != 0, "fclose on an open stream"); g_closed++; }
+void File_close(File* self)
+__CPROVER_requires(__CPROVER_is_fresh(self, sizeof(File)) && g_closed == 0 && self->_info.size >= -1)
+/* the stream is closed once if it was open, and the cached size/dates are dropped: the next size() asks the file system again */
+__CPROVER_ensures(self->_file == 0 && g_closed == (__CPROVER_old(self->_file) != 0 ? 1 : 0))
+__CPROVER_ensures(self->_info.size == -1)
+__CPROVER_assigns(*self, g_closed)
+@@close@@
+void vf_harness(void) { File* f; File_close(f); VF_CANARY(); }
+''',
+    entry='File_close',
+    desc='File::close(): closes an open stream exactly once and invalidates the cached FileInfo, so size()/content()/text() after a write...close sequence re-read the real size',
+    functions=['File::close'], trusted=['fclose (libc)'],
+)
+UNITS += [file_close]
